@@ -175,11 +175,19 @@ class Match:
         out = [fp + "match %s with" % self.target + trail(ch)]
         for pat, body in self.arms:
             out += noise(ch, armind)
-            same = ch.pick(2)              # 0: body on the next line, 1: a single-expression body on the arm's line
+            same = ch.pick(3)              # 0: body on the next line, 1: a single-expression body on the arm's line,
+                                           # 2: a body of several statements (or a nested if / match) starting on the arm's line,
+                                           #    its other lines at the column of its first token
             sub = armind + INDENTS[ch.pick(len(INDENTS))]
+            prefix = armind + "| %s -> " % pat
+            if same == 2 and not body.single():
+                sub = " " * len(prefix)
             bl = body.lines(ch, sub)
             if same == 1 and body.single():
                 out.append(armind + "| %s -> %s" % (pat, body.stmts[0].text))
+            elif same == 2 and not body.single() and bl and bl[0].startswith(sub) and bl[0][len(sub):len(sub) + 1] not in ("", "/", " ", "\t"):
+                out.append(prefix + bl[0][len(sub):])
+                out += bl[1:]
             else:
                 out.append(armind + "| %s ->" % pat)
                 out += bl
@@ -346,7 +354,7 @@ def docs():
         UnionType("Cmd", ["Push of int", "Pop", "Add"]),
         RecordType("St", ["Stack: []int", "Count: int"]),
         Fn("step (s:St) (c:Cmd)", B(
-            LocalFn("bump (n:int)", B(Let("m", E("n + 1")), E("m"))),
+            LocalFn("bump (n:int)", B(Let("range", E("n + 1")), E("range"))),
             LamLet("dbl", "x", B(Let("y", E("x * 2")), E("y"))),
             Let("next", Match("c", [
                 ("Push n", B(E("slice.PushLast n s.Stack"))),
